@@ -107,11 +107,11 @@ def run(ctx) -> None:
     from . import c05
     ctx.rule("R06.5", "never deferred: no item or computed result is held back across a further pull of the source "
                       "(a failure of that pull would otherwise suppress an item the stdlib delivers first) (R05.1)")
-    for short in c05.TOOLS:
+    for short in c05._present(ctx, c05.TOOLS):
         c05.r05_1(ctx, ctx.unit(short), "R06.5")
     ctx.rule("R06.6", "a callable fails where the stdlib's would: each per-item callable runs at most once between two pulls "
                       "(a key that is computed late surfaces its error late, or never) (R05.2, shared)")
-    for short in c05.TOOLS + ["builtins._min_max", "builtins.sorted", "functools.reduce", "heapq._largest"]:
+    for short in c05._present(ctx, c05.TOOLS) + ["builtins._min_max", "builtins.sorted", "functools.reduce", "heapq._largest"]:
         c05.r05_2(ctx, ctx.unit(short), "R06.6")
     c05.r05_9(ctx, "R06.7")
     # an error raised by the k-th pull of a source or the k-th call of a callable surfaces in the library
